@@ -352,7 +352,10 @@ func (q qiDecoder) value(v reflect.Value) error {
 			// costly (run "go test -bench=ReadStruct" and compare
 			// results when making changes to this code).
 			if v := v.Field(i); v.CanSet() || t.Field(i).Name != "_" {
-				q.value(v)
+				if err := q.value(v); err != nil {
+					return fmt.Errorf("read field %s: %w",
+						t.Field(i).Name, err)
+				}
 			}
 		}
 	case reflect.Slice:
